@@ -47,6 +47,19 @@ def check(ctx: Ctx):
     from . import c03
 
     c03._guarded(ctx, "R03.7", c03.check_candidate_call)
+    # "at least as good as its best single candidate": no candidate pair may be lost (R03.1, R09.1)
+    from . import c09
+
+    c03.check_no_pruning(ctx)
+    c03._guarded(ctx, "R03.1", c03.check_codec)
+    c03._guarded(ctx, "R09.1", c09.check_codec_width)
+    c03._guarded(ctx, "R09.1", c09.check_codec_width_relational)
+    # results of later evaluations (another group, a flipped copy, the exchanged pair, a second
+    # threshold) are only meaningful if no step writes into the caller's arrays (R15.8)
+    from . import c15 as _c15
+    from . import c03 as _c03
+
+    _c03._guarded(ctx, "R15.8", _c15.check_param_aliasing)
 
 
 def check_merge(ctx: Ctx):
